@@ -263,6 +263,13 @@ SEQUENCE_decode_oer(const asn_codec_ctx_t *opt_codec_ctx,
 
         len_len = oer_fetch_length(ptr, size, &len);
         if(len_len > 0) {
+            if(len > size - len_len) {
+                /*
+                 * Wait for the whole bitmap: the length determinant is not
+                 * consumed, this phase starts with it when restarted.
+                 */
+                RETURN(RC_WMORE);
+            }
             ADVANCE(len_len);
         } else if(len_len < 0) {
             RETURN(RC_FAIL);
@@ -273,8 +280,6 @@ SEQUENCE_decode_oer(const asn_codec_ctx_t *opt_codec_ctx,
         if(len == 0) {
             /* 16.4.1-2 */
             RETURN(RC_FAIL);
-        } else if(len > size) {
-            RETURN(RC_WMORE);
         }
 
         /* Account for unused bits */
